@@ -17,7 +17,6 @@ var schedPkgs = []string{".", "pkg/gi", "pkg/generic", "pkg/clos", "pkg/flavors"
 // cannot take, background helpers, signal handling); their "sync" import is still rewritten.
 var schedChanSkip = map[string]string{
 	"pkg/gi/timechannel.go": "receive-only time channel (outside the controlled alphabet)",
-	"pkg/gi/select.go":      "select statement (outside the controlled alphabet)",
 	"pkg/gi/logger.go":      "background logger goroutine",
 	"pkg/gi/signal-wait.go": "os signal channel",
 }
@@ -90,6 +89,7 @@ func (r *schedRewriter) walk(n ast.Node) {
 	}
 	switch t := n.(type) {
 	case *ast.SelectStmt:
+		// reached only when the statement is not an element of a statement list (see stmts)
 		r.note(t.Pos(), "select left alone")
 		for _, cc := range t.Body.List {
 			if c, ok := cc.(*ast.CommClause); ok {
@@ -188,6 +188,8 @@ func (r *schedRewriter) stmts(list []ast.Stmt) []ast.Stmt {
 				body := &ast.BlockStmt{List: []ast.Stmt{&ast.ExprStmt{X: t.Call}}}
 				list[i] = &ast.ExprStmt{X: call(sel("vsched", "Go"), &ast.FuncLit{Type: &ast.FuncType{Params: &ast.FieldList{}}, Body: body})}
 			}
+		case *ast.SelectStmt:
+			list[i] = r.selectStmt(t)
 		case *ast.SendStmt:
 			r.changed = true
 			t.Chan = r.expr(t.Chan)
@@ -199,6 +201,67 @@ func (r *schedRewriter) stmts(list []ast.Stmt) []ast.Stmt {
 		}
 	}
 	return list
+}
+
+// selectStmt: a select whose clauses are all receives (no default, no send) becomes
+//
+//	switch vsched.Select(c0, c1, ...) {
+//	case 0: <comm 0 as a plain statement>; vsched.SelectDone(); <body 0>
+//	...
+//	default: <the original select>      // the goroutine is not under a scheduler
+//	}
+//
+// so that the explorer decides which ready case fires. Any other select is left alone (bodies rewritten).
+func (r *schedRewriter) selectStmt(t *ast.SelectStmt) ast.Stmt {
+	var chans []ast.Expr
+	ok := true
+	for _, cc := range t.Body.List {
+		c := cc.(*ast.CommClause)
+		var u *ast.UnaryExpr
+		switch cm := c.Comm.(type) {
+		case *ast.ExprStmt:
+			u, _ = isArrowU(cm.X)
+		case *ast.AssignStmt:
+			if len(cm.Rhs) == 1 {
+				u, _ = isArrowU(cm.Rhs[0])
+			}
+		}
+		if u == nil {
+			ok = false
+			break
+		}
+		chans = append(chans, u.X)
+	}
+	for _, cc := range t.Body.List {
+		c := cc.(*ast.CommClause)
+		c.Body = r.stmts(c.Body) // the communication itself (c.Comm) stays a real receive
+	}
+	if !ok || len(chans) == 0 {
+		r.note(t.Pos(), "select left alone (default or send clause)")
+		return t
+	}
+	r.changed = true
+	r.note(t.Pos(), fmt.Sprintf("select over %d receives -> switch vsched.Select", len(chans)))
+	sw := &ast.SwitchStmt{Tag: call(sel("vsched", "Select"), chans...), Body: &ast.BlockStmt{}}
+	for i, cc := range t.Body.List {
+		c := cc.(*ast.CommClause)
+		body := []ast.Stmt{c.Comm, &ast.ExprStmt{X: call(sel("vsched", "SelectDone"))}}
+		body = append(body, c.Body...)
+		sw.Body.List = append(sw.Body.List, &ast.CaseClause{
+			List: []ast.Expr{&ast.BasicLit{Kind: token.INT, Value: strconv.Itoa(i)}},
+			Body: body,
+		})
+	}
+	sw.Body.List = append(sw.Body.List, &ast.CaseClause{Body: []ast.Stmt{t}})
+	return sw
+}
+
+func isArrowU(e ast.Expr) (*ast.UnaryExpr, bool) {
+	u, ok := isArrow(e)
+	if !ok {
+		return nil, false
+	}
+	return u, true
 }
 
 // ---- channel-typed identifiers, decided from declarations inside the file/package
